@@ -32,7 +32,7 @@ func Data(n, cp, pre int) {
 	}
 }
 
-func step(e *asm.Emitter, c int, i int) {
+func step(e *asm.Emitter, c int, i int, dry bool) {
 	switch c {
 	case 0:
 		e.NOP()
@@ -46,13 +46,29 @@ func step(e *asm.Emitter, c int, i int) {
 		e.BNE("L2")
 	case 5:
 		e.EmitBytes([]byte{vp.U8("b" + string(rune('0'+i))), 0x55})
+	case 6:
+		// a piece built in a Clone and appended back (measuring code size piecewise)
+		var target []byte
+		if !dry {
+			target = make([]byte, 8)
+		}
+		c := e.Clone(target)
+		c.REP(asm.Flags(vp.U8("g" + string(rune('0'+i)))))
+		c.Label("L" + string(rune('1'+i)))
+		c.LDA_abs(vp.U16("v" + string(rune('0'+i))))
+		e.Append(c)
+	case 7:
+		// a new base address in the middle of the stream
+		nb := vp.U32("base" + string(rune('0'+i)))
+		vp.Assume(nb < 1<<24 && nb&0xFFFF <= 0xFF00)
+		e.SetBase(nb)
 	}
 }
 
 // DrySequence: after every call of a k-call sequence an emitter without a buffer reports the same
 // PC, label addresses and tracked flags as one with a (large enough) buffer.
 func DrySequence(prog, k int) {
-	buf := vp.Bytes("buf", 16)
+	buf := vp.Bytes("buf", 20)
 	listing := vp.Choose("listing", 2) == 1
 	real := asm.NewEmitter(buf, listing)
 	dry := asm.NewEmitter(nil, listing)
@@ -67,10 +83,10 @@ func DrySequence(prog, k int) {
 	dry.AssumeREP(fl)
 	p := prog
 	for i := 0; i < k; i++ {
-		c := p % 6
-		p /= 6
-		r1 := vp.Try(func() { step(real, c, i) })
-		r2 := vp.Try(func() { step(dry, c, i) })
+		c := p % 8
+		p /= 8
+		r1 := vp.Try(func() { step(real, c, i, false) })
+		r2 := vp.Try(func() { step(dry, c, i, true) })
 		vp.Assert("same-acceptance", r1 == r2)
 		if r1 || r2 {
 			vp.Reach("refused")
